@@ -253,6 +253,19 @@ def check(case, ctx):
                             continue
                         st, got = lib.call(p.get_fragment_matches, list(chosen), list(mzs), list(ints), tol, typ, mode)
                         ctx.evals += 1
+                        if st == 'ok' and mode == 'all':
+                            # the caller's own lists passed twice: they are left as they were and the answer is the same
+                            F, M, I = list(chosen), list(mzs), list(ints)
+                            r1 = lib.call(p.get_fragment_matches, F, M, I, tol, typ, 'largest')
+                            r2 = lib.call(p.get_fragment_matches, F, M, I, tol, typ, mode)
+                            ctx.evals += 2
+                            k0 = sorted((x.fragment.label, x.mz, x.intensity) for x in got)
+                            k2 = sorted((x.fragment.label, x.mz, x.intensity) for x in r2[1]) if r2[0] == 'ok' else str(r2[1])
+                            if M != list(mzs) or I != list(ints) or [id(x) for x in F] != [id(x) for x in chosen]:
+                                ctx.fail('fragment-matches-reorder-the-arguments', [list(mzs), list(ints)], [M, I],
+                                         call=[case['fr'], mzs, ints, tol, typ, mode])
+                            elif k2 != k0:
+                                ctx.fail('fragment-matches-second-call', k0, k2, call=[case['fr'], mzs, ints, tol, typ, mode])
                         if st != 'ok':
                             ctx.fail('fragment-matches-raises', 'list', got, call=[case['fr'], mzs, ints, tol, typ, mode])
                             continue
